@@ -322,6 +322,25 @@ pub fn run_cli_with(case: &CliCase, entropy: u128, sandbox: &Path, expected: Opt
     let mut cmd = Command::new(bin_path());
     cmd.current_dir(sandbox);
     cmd.env_clear();
+    if entropy != case.entropy {
+        // the process twin also differs in its environment variables: none of them may reach the output
+        for (k, v) in [
+            ("RUST_LOG", "trace"),
+            ("RUST_BACKTRACE", "1"),
+            ("LANG", "tr_TR.UTF-8"),
+            ("LC_ALL", "tr_TR.UTF-8"),
+            ("TZ", "Asia/Tokyo"),
+            ("COLUMNS", "20"),
+            ("NO_COLOR", "1"),
+            ("CLICOLOR_FORCE", "1"),
+            ("TERM", "xterm-256color"),
+            ("HOME", "/nonexistent"),
+            ("TMPDIR", "/nonexistent"),
+            ("USER", "somebody"),
+        ] {
+            cmd.env(k, v);
+        }
+    }
     cmd.env("LD_PRELOAD", shim_path());
     cmd.env("XSG_FAULT_PLAN", &plan);
     cmd.env("XSG_SHIM_REPORT", &rp);
